@@ -434,7 +434,191 @@ def g_rename(rng):
     return f"rename {A.tok()} {map_tok(sm)} {map_tok(ym)} {D.tok()}"
 
 
+
+# ---------------------------------------------------------------- word automata
+class NFA:
+    def __init__(self, trans=None, starts=None, finals=None):
+        self.trans = list(trans or [])      # (src, sym, dst)
+        self.starts = list(starts or [])
+        self.finals = list(finals or [])
+
+    def states(self):
+        s = set(self.starts) | set(self.finals)
+        for (a, _, c) in self.trans:
+            s.add(a)
+            s.add(c)
+        return sorted(s)
+
+    def tok(self):
+        return (";".join(f"{a},{b},{c}" for (a, b, c) in self.trans) + "|" + ",".join(map(str, self.starts)) + "|" +
+                ",".join(map(str, self.finals)))
+
+    def renamed(self, m):
+        return NFA([(m[a], b, m[c]) for (a, b, c) in self.trans], [m[q] for q in self.starts], [m[q] for q in self.finals])
+
+    def copy(self):
+        return NFA(self.trans, self.starts, self.finals)
+
+
+def rand_nfa(rng, nmax=5, nsyms=3, base=0, sparse=False):
+    n = rng.randint(1, nmax)
+    states = rng.sample(range(base, base + 30), n) if sparse else list(range(base, base + n))
+    syms = list(range(rng.randint(1, nsyms)))
+    trans = []
+    for _ in range(rng.randint(0, 2 * n + 2)):
+        trans.append((rng.choice(states), rng.choice(syms), rng.choice(states)))
+    if rng.random() < 0.3 and trans:
+        trans.append(rng.choice(trans))
+    starts = list({rng.choice(states) for _ in range(rng.choice([1, 1, 2, 2, 3]))})
+    if rng.random() < 0.05:
+        starts = []
+    finals = list({rng.choice(states) for _ in range(rng.choice([1, 1, 2]))})
+    if rng.random() < 0.05:
+        finals = []
+    if rng.random() < 0.25 and starts:
+        finals.append(rng.choice(starts))          # epsilon accepted
+    if rng.random() < 0.2:
+        # a dead / unreachable tail
+        x = max(states) + 1
+        trans.append((x, rng.choice(syms), rng.choice(states)) if rng.random() < 0.5 else (rng.choice(states), rng.choice(syms), x))
+    return NFA(trans, sorted(set(starts)), sorted(set(finals)))
+
+
+def mutate_nfa(rng, A):
+    B = A.copy()
+    st = B.states() or [0]
+    syms = sorted({b for (_, b, _) in B.trans}) or [0]
+    for _ in range(rng.randint(1, 2)):
+        c = rng.random()
+        if c < 0.3 and B.trans:
+            B.trans.pop(rng.randrange(len(B.trans)))
+        elif c < 0.6:
+            B.trans.append((rng.choice(st), rng.choice(syms + [max(syms) + 1]), rng.choice(st)))
+        elif c < 0.8:
+            q = rng.choice(st)
+            B.finals = [x for x in B.finals if x != q] if q in B.finals else B.finals + [q]
+        else:
+            q = rng.choice(st)
+            B.starts = [x for x in B.starts if x != q] if q in B.starts else B.starts + [q]
+    return B
+
+
+def split_nfa(rng, A, keep=0.7):
+    st = A.states()
+    copies, nxt = {}, 0
+    for q in st:
+        k = rng.choice([1, 2, 2, 3])
+        copies[q] = list(range(nxt, nxt + k))
+        nxt += k
+    trans = []
+    for (a, b, c) in A.trans:
+        for x in copies[a]:
+            for y in copies[c]:
+                if rng.random() < keep:
+                    trans.append((x, b, y))
+    starts = [c for q in A.starts for c in copies[q] if rng.random() < 0.8]
+    finals = [c for q in A.finals for c in copies[q] if rng.random() < 0.8]
+    return NFA(trans, sorted(set(starts)), sorted(set(finals)))
+
+
+def nfa_pair(rng):
+    A = rand_nfa(rng, sparse=rng.random() < 0.3)
+    c = rng.random()
+    if c < 0.35:
+        B = mutate_nfa(rng, A)
+    elif c < 0.7:
+        B = split_nfa(rng, A, keep=rng.choice([0.6, 0.8, 0.95]))
+        if len(B.states()) > 9:
+            B = mutate_nfa(rng, A)
+    else:
+        B = rand_nfa(rng, sparse=rng.random() < 0.3)
+    if rng.random() < 0.4:
+        A, B = B, A
+    return A, B
+
+
+def g_nfah_incl(rng):
+    A, B = nfa_pair(rng)
+    steps = [f"def:{A.tok()}", f"def:{B.tok()}", "incl:0:1", "incl:1:0"]
+    if rng.random() < 0.3:
+        steps += ["union:0:1", "incl:0:2", "incl:2:1"]
+    return "nfah " + " ".join(steps)
+
+
+def g_nfah_ops(rng):
+    A, B = nfa_pair(rng)
+    # entry 2: numbers disjoint from A (for UnionDisjointStates); entry 3: same numbers as entry 2, other automaton
+    off = (max(A.states() or [0]) + 1) + rng.randint(0, 3)
+    stB = B.states()
+    B2 = B.renamed({q: off + i for i, q in enumerate(stB)})
+    C = rand_nfa(rng, base=off, nmax=max(1, len(stB)))
+    steps = [f"def:{A.tok()}", f"def:{B.tok()}", f"def:{B2.tok()}", f"def:{C.tok()}"]
+    n = 4
+    for _ in range(rng.randint(2, 7)):
+        c = rng.random()
+        i = rng.randrange(n)
+        j = rng.randrange(n)
+        if c < 0.16:
+            steps.append(f"union:{i}:{j}")
+        elif c < 0.36:
+            steps.append(f"uniondisj:0:{rng.choice([2, 3])}")
+        elif c < 0.54:
+            steps.append(f"isect:{i}:{j}")
+        elif c < 0.66:
+            steps.append(f"rev:{i}")
+        elif c < 0.76:
+            steps.append(f"unreach:{i}")
+        elif c < 0.86:
+            steps.append(f"useless:{i}")
+        else:
+            steps.append(f"cand:{i}")
+        n += 1
+    return "nfah " + " ".join(steps)
+
+
+def g_nfah_hist(rng):
+    """copy / assign / mutate / destroy interleavings over NFAs that share storage (C11)"""
+    A = rand_nfa(rng, nmax=4)
+    B = rand_nfa(rng, nmax=4, base=rng.choice([0, 10]))
+    steps = [f"def:{A.tok()}", f"def:{B.tok()}"]
+    live = [0, 1]
+    n = 2
+    for _ in range(rng.randint(4, 14)):
+        if not live:
+            break
+        c = rng.random()
+        i = rng.choice(live)
+        j = rng.choice(live)
+        if c < 0.2:
+            steps.append(f"copy:{i}")
+            live.append(n)
+            n += 1
+        elif c < 0.3:
+            steps.append(f"assign:{i}:{j}")
+        elif c < 0.55:
+            steps.append(f"add:{i}:{rng.randrange(0, 14)},{rng.randrange(0, 3)},{rng.randrange(0, 14)}")
+        elif c < 0.65:
+            steps.append(f"final:{i}:{rng.randrange(0, 14)}")
+        elif c < 0.72:
+            steps.append(f"start:{i}:{rng.randrange(0, 14)}")
+        elif c < 0.80 and len(live) > 1:
+            steps.append(f"kill:{i}")
+            live.remove(i)
+        elif c < 0.86:
+            steps.append(f"move:{i}")
+            live.remove(i)
+            live.append(n)
+            n += 1
+        else:
+            op = rng.choice(["rev", "unreach", "useless", "cand", "union", "isect"])
+            steps.append(f"{op}:{i}" if op in ("rev", "unreach", "useless", "cand") else f"{op}:{i}:{j}")
+            live.append(n)
+            n += 1
+    return "nfah " + " ".join(steps)
+
+
 GENERATORS = {
+    "nfah_incl": g_nfah_incl, "nfah_ops": g_nfah_ops, "nfah_hist": g_nfah_hist,
     "incl": g_incl, "inclall": g_inclall, "union": g_union, "unionpre": g_unionpre, "uniondisj": g_uniondisj,
     "isect": g_isect, "isectbu": g_isectbu, "trim": g_trim, "cand": g_cand, "reduce": g_reduce, "simdown": g_simdown, "simup": g_simup,
     "compl": g_compl, "rename": g_rename,
